@@ -403,7 +403,7 @@ def gen_history(draw):
     while len(reqs) < target:
         kind = draw(st.sampled_from(
             ["batch"] * 12 + ["header"] * 4 + ["smallmax"] * 2 + ["version"] * 1 + ["raw"] * 1
-            + ["mangle"] * 2 + ["c13"] * 2 + ["probe"] * 1))
+            + ["mangle"] * 2 + ["c13"] * 2 + ["probe"] * 1 + ["longid"] * 1))
         cert, tls = _GOOD, True
         who = draw(st.sampled_from(["alice"] * 7 + ["bob"]))
         cert = {"cns": [who], "eku": "client"}
@@ -412,6 +412,20 @@ def gen_history(draw):
             cert = draw(st.sampled_from(_BAD_CERTS))
         elif c == 1:
             cert, tls = {"cns": [who], "eku": draw(st.sampled_from([None, "server"]))}, False
+        if kind == "longid":
+            # identifiers of a thousand characters and more (they come back inside result messages)
+            n_ = draw(st.sampled_from([1000, 1023, 1024, 1025, 1200, 5000]))
+            v_ = draw(st.sampled_from(H.VERSIONS))
+            its = [{"op": o_, "uid": draw(st.sampled_from(["9", "x"])) * n_}
+                   for o_ in draw(st.lists(st.sampled_from(["Get", "Destroy", "GetAttributes", "Activate",
+                                                            "GetAttributeList"]), min_size=1, max_size=3))]
+            for k_, it_ in enumerate(its):
+                it_["bid"] = "%02x" % (k_ + 1)
+            r_ = {"kind": "batch", "v": list(v_), "items": its}
+            if len(its) > 1:
+                r_["cont"] = "CONTINUE"
+            reqs.append((r_, cert, tls))
+            continue
         if kind == "probe":
             seq = draw(st.sampled_from(_probe_sequences(idx)))
             for r in seq[:target - len(reqs)]:
